@@ -17,6 +17,14 @@
      C16_drop_local               LDrop changes nothing but the dropped client task
      C16_effect_independent       server steps do not depend on the client tasks
      quiescent_iff_idle           quiescent <-> busyb = false (reachable, drain = true)
+     C11_attached_only_live       drain = true, guard = true: at quiescence the attachment list
+                                  of a live topic holds only stored, undeleted subscriptions
+                                  created on it (converse of C16_attached)
+     C11_quiescent_exact          ... hence it is exactly that set
+     C11_refuted_without_guard    drain = true, guard = false, K = 2: a reachable quiescent state
+                                  with an exited subscription attached to a live topic, after
+                                  which a Publish ends CDone false
+   All the C07/C16 results hold for both values of [guard]; only the C11 results need it.
    and examples by vm_compute at the end. *)
 
 From Coq Require Import List NArith Arith Bool Lia.
@@ -216,9 +224,8 @@ Proof.
   try (apply finish_helper_inv in Hn as [[Hn Hx]|[-> (hp & Hh & ->)]]);
   inv_nth; sproj; eauto; try discriminate.
   all: try topic_ex.
+  all: try (injection H as -> ->; congruence).
   - eexists; split; [eapply nth_set_same; eauto | sproj; apply in_or_app; simpl; auto].
-  - injection H as -> ->. congruence.
-  - injection H as -> ->. congruence.
 Qed.
 
 
@@ -548,8 +555,10 @@ Qed.
 (* ================================================================== *)
 (* C07 refuted for the original code (drain = false)                    *)
 
-Definition cfg_orig (k : nat) : config := {| K := k; drain := false |}.
-Definition cfg_fixed (k : nat) : config := {| K := k; drain := true |}.
+(* the original code; the code with the draining delete only; the repaired code *)
+Definition cfg_orig (k : nat) : config := {| K := k; drain := false; guard := false |}.
+Definition cfg_noguard (k : nat) : config := {| K := k; drain := true; guard := false |}.
+Definition cfg_fixed (k : nat) : config := {| K := k; drain := true; guard := true |}.
 
 (* one topic, one attached subscription; a Delete (client 1) and a Publish (client 2)
    are accepted; the subscription starts deleting, k more requests fill its mailbox, the
@@ -1140,14 +1149,20 @@ Proof.
   intros. unfold finish_helper. rewrite H. eapply nth_set_same; eauto.
 Qed.
 
-(* an unfinished helper stays unfinished until its Attach is handled, which attaches *)
+Lemma attach_blocked_deleted : forall cfg st s,
+  attach_blocked cfg st s = true -> guard cfg = true /\ sub_deleted st s = true.
+Proof. unfold attach_blocked. intros. now apply andb_true_iff. Qed.
+
+(* an unfinished helper stays unfinished until its Attach is handled, which attaches unless
+   the subscription is already marked deleted (the guard) *)
 Lemma helper_done_step : forall cfg st l st' h hp,
   inv_amsg st -> step cfg st l = Some st' ->
   nth_error (helpers st) h = Some hp -> h_pc hp <> HDone ->
   exists hp', nth_error (helpers st') h = Some hp' /\ h_sub hp' = h_sub hp /\
     (h_pc hp' <> HDone \/
      (exists tp', nth_error (topics st') (h_topic hp) = Some tp' /\ In (h_sub hp) (t_atts tp')) \/
-     nth_error (topics st) (h_topic hp) = None).
+     nth_error (topics st) (h_topic hp) = None \/
+     sub_deleted st (h_sub hp) = true).
 Proof.
   intros cfg st l st' h1 hp1 IM H Hn Hp.
   step_inv H; sproj; eauto 6.
@@ -1160,6 +1175,12 @@ Proof.
     + eexists. split. eapply nth_set_same; eauto. simpl.
       replace hp1 with h0 in * by congruence. split; auto.
     + exists hp1. rewrite nth_set_neq; auto.
+  - destruct (Nat.eq_dec h h1) as [->|N].
+    + destruct (IM t t0 s h1 Heqo) as (hp & Hh & Es & Et); [rewrite Heql1; left; reflexivity|].
+      replace hp with hp1 in * by congruence.
+      eexists. split; [apply finish_helper_same; eauto|]. simpl. split; auto.
+      right; right; right. rewrite Es. now apply attach_blocked_deleted in Heqb.
+    + exists hp1. rewrite finish_helper_other; auto.
   - destruct (Nat.eq_dec h h1) as [->|N].
     + destruct (IM t t0 s h1 Heqo) as (hp & Hh & Es & Et); [rewrite Heql1; left; reflexivity|].
       replace hp with hp1 in * by congruence.
@@ -1213,10 +1234,12 @@ Proof.
     + apply nth_error_None in Htp. specialize (IT _ _ Hs). lia.
   - destruct (IH _ _ Hh) as (sb0 & Hs0 & Et). rewrite Es in Hs0.
     assert (sb0 = sb) by congruence. subst sb0.
-    destruct (@helper_done_step _ _ _ _ _ _ IM H Hh Hp) as (hp' & Hh' & Es' & [Hp'|[(tp' & Htp' & Hin')|Hnone]]).
+    destruct (@helper_done_step _ _ _ _ _ _ IM H Hh Hp)
+      as (hp' & Hh' & Es' & [Hp'|[(tp' & Htp' & Hin')|[Hnone|Hdel]]]).
     + right; right; right. exists h, hp'. split; auto. split; auto. congruence.
     + left. exists tp'. rewrite Ht, Et. split; auto. congruence.
     + apply nth_error_None in Hnone. specialize (IT _ _ Hs). lia.
+    + right; left. apply Hd. unfold sub_deleted in Hdel. rewrite Es, Hs in Hdel. exact Hdel.
 Qed.
 
 Definition inv_c16 (st : state) : Prop :=
@@ -1377,7 +1400,7 @@ Proof.
   injection H as -> -> ->.
   destruct l; try discriminate Hl;
   unfold step, step_hsend, step_tdeq, step_post, step_tfinish, step_sdeq, step_ssend,
-    step_sfinish, topic_alive; sproj;
+    step_sfinish, topic_alive, attach_blocked, sub_deleted; sproj;
   repeat destr_goal; auto.
 Qed.
 
@@ -1393,6 +1416,223 @@ Proof.
   - apply not_busy_quiescent.
 Qed.
 
+
+(* ================================================================== *)
+(* C11: with the guard, a live topic's attachment list holds only live subscriptions       *)
+
+(* a subscription not marked deleted is still stored in the manager *)
+Definition inv_exists (st : state) : Prop :=
+  forall s sb, nth_error (subs st) s = Some sb -> s_deleted sb = false -> s_exists sb = true.
+
+Lemma inv_exists_step : forall cfg st l st',
+  inv_del st -> inv_exists st -> step cfg st l = Some st' -> inv_exists st'.
+Proof.
+  intros cfg st l st' ID I H s1 sb1 Hn Hd. unfold inv_exists in I.
+  step_inv H; sproj;
+  try (apply answer_remove_inv in Hn as [[Hn Hx]|[-> (sb & stash & Hs & Hph & ->)]]);
+  inv_nth; sproj; eauto; try discriminate.
+Qed.
+
+(* a topic that appears in a step has no attachments yet *)
+Lemma topics_new : forall cfg st l st' t tp',
+  step cfg st l = Some st' -> nth_error (topics st) t = None ->
+  nth_error (topics st') t = Some tp' -> t_atts tp' = [].
+Proof.
+  intros cfg st l st' t1 tp1 H Hnone Hn.
+  step_inv H; sproj; inv_nth; sproj; try congruence.
+  reflexivity.
+Qed.
+
+(* what a step does to one topic: alive only goes down; a new attachment comes from an
+   Attach that was not blocked; a queued RemoveSubscription stays queued or takes effect *)
+Lemma topic_fwd : forall cfg st l st' t tp,
+  step cfg st l = Some st' -> nth_error (topics st) t = Some tp ->
+  exists tp', nth_error (topics st') t = Some tp' /\
+    (t_alive tp' = true -> t_alive tp = true) /\
+    (forall s, In s (t_atts tp') ->
+       In s (t_atts tp) \/
+       (exists h, In (TAttach s h) (t_mbox tp) /\ attach_blocked cfg st s = false)) /\
+    (forall s, In (TRemove s) (t_mbox tp) ->
+       In (TRemove s) (t_mbox tp') \/ ~ In s (t_atts tp')).
+Proof.
+  intros cfg st l st' t1 tp1 H Hn.
+  step_inv H; sproj; eauto 7.
+  all: try (exists tp1; split; [now apply nth_snoc_old|auto]; fail).
+  all: at_set t1 tp1.
+  all: repeat split; auto; try discriminate.
+  all: try (intros; left; apply in_or_app; auto; fail).
+  all: try (intros s' Hs'; left;
+            match goal with E : t_mbox _ = _ |- _ => rewrite E in Hs' end;
+            destruct Hs' as [Hs'|Hs']; [discriminate Hs'|exact Hs']).
+  - intros s [].
+  - intros s0 [<-|Hs0]; auto. right. exists h. split; auto. rewrite Heql1. left; reflexivity.
+  - intros s0 Hs0. left. unfold remove_all in Hs0. now apply filter_In in Hs0.
+  - intros s0 Hs0. rewrite Heql1 in Hs0. destruct Hs0 as [E0|Hs0]; auto.
+    injection E0 as ->. right. unfold remove_all. intros Hf. apply filter_In in Hf as [_ Hf].
+    rewrite Nat.eqb_refl in Hf. discriminate.
+Qed.
+
+Lemma answer_remove_keep : forall s ss j sb,
+  nth_error ss j = Some sb ->
+  exists sb', nth_error (answer_remove s ss) j = Some sb' /\ s_topic sb' = s_topic sb /\
+    s_deleted sb' = s_deleted sb /\
+    (forall stash, s_phase sb = SDel WaitRoom stash -> s_phase sb' = SDel WaitRoom stash).
+Proof.
+  intros s ss j sb Hn. unfold answer_remove.
+  destruct (nth_error ss s) as [sb0|] eqn:E; eauto.
+  destruct (s_phase sb0) as [|[] stash|] eqn:Ep; eauto.
+  destruct (Nat.eq_dec s j) as [->|N].
+  - eexists. split. eapply nth_set_same; eauto. simpl.
+    replace sb0 with sb in * by congruence. repeat split; auto. intros; congruence.
+  - exists sb. rewrite nth_set_neq; auto.
+Qed.
+
+(* what a step does to one subscription, as far as its pending removal is concerned *)
+Lemma sub_fwd : forall cfg st l st' s sb,
+  step cfg st l = Some st' -> nth_error (subs st) s = Some sb ->
+  exists sb', nth_error (subs st') s = Some sb' /\ s_topic sb' = s_topic sb /\
+    (s_deleted sb = false ->
+       s_deleted sb' = false \/
+       (topic_alive st (s_topic sb) = true -> exists stash, s_phase sb' = SDel WaitRoom stash)) /\
+    (forall stash, s_phase sb = SDel WaitRoom stash ->
+       (exists stash', s_phase sb' = SDel WaitRoom stash') \/
+       nth_error (topics st) (s_topic sb) = None \/
+       (exists tp', nth_error (topics st') (s_topic sb) = Some tp' /\
+                    In (TRemove s) (t_mbox tp'))).
+Proof.
+  intros cfg st l st' s1 sb1 H Hn.
+  step_inv H; sproj; eauto 8.
+  all: try (exists sb1; split; [now apply nth_snoc_old|eauto 8]; fail).
+  all: try (destruct (answer_remove_keep s _ _ Hn) as (sb' & Hs' & Et' & Ed' & Ep');
+            exists sb'; split; [exact Hs'|]; split; [exact Et'|]; split;
+            [intros; left; congruence|intros stash0 Hp0; left; eauto]; fail).
+  all: at_set s1 sb1.
+  all: repeat split; auto; try discriminate.
+  all: try (intros; left; eauto; fail).
+  all: try (intros ? ?; congruence).
+  all: try (intros _; right; intros _; eexists; reflexivity).
+  all: try (intros _; right; intros ?; congruence).
+  all: try (intros stash0 Hp0; left;
+            match goal with |- exists _, SDel ?d _ = _ => assert (d = WaitRoom) by congruence end;
+            subst; eauto; fail).
+  intros stash0 Hp0. right; right. eexists. split; [eapply nth_set_same; eauto|].
+  sproj. apply in_or_app. simpl; auto.
+Qed.
+
+
+(* the removal of subscription s from topic tp is still to come: the deleting actor has not
+   yet sent its RemoveSubscription, or the request is in the topic's mailbox *)
+Definition removal_pending (s : nat) (sb : sub) (tp : topic) : Prop :=
+  (exists stash, s_phase sb = SDel WaitRoom stash) \/ In (TRemove s) (t_mbox tp).
+
+(* the key invariant of C11 (needs the guard): every entry of a live topic's attachment list
+   is a subscription created on that topic which is not marked deleted, or whose removal
+   is pending *)
+Definition inv_live (st : state) : Prop :=
+  forall t tp s, nth_error (topics st) t = Some tp -> t_alive tp = true -> In s (t_atts tp) ->
+    exists sb, nth_error (subs st) s = Some sb /\ s_topic sb = t /\
+               (s_deleted sb = false \/ removal_pending s sb tp).
+
+Lemma inv_live_step : forall cfg st l st',
+  guard cfg = true ->
+  inv_amsg st -> inv_hsub st -> inv_live st -> step cfg st l = Some st' -> inv_live st'.
+Proof.
+  intros cfg st l st' HG IM IH I H t1 tp1 s1 Hn Ha Hin.
+  destruct (nth_error (topics st) t1) as [tp|] eqn:Htp.
+  2:{ rewrite (@topics_new _ _ _ _ _ _ H Htp Hn) in Hin. inversion Hin. }
+  destruct (@topic_fwd _ _ _ _ _ _ H Htp) as (tp' & Htp' & FA & FB & FC).
+  assert (tp' = tp1) by congruence. subst tp'.
+  specialize (FA Ha).
+  assert (Alive : topic_alive st t1 = true) by (unfold topic_alive; now rewrite Htp).
+  (* the subscription before the step, and what was known about it *)
+  assert (Old : exists sb, nth_error (subs st) s1 = Some sb /\ s_topic sb = t1 /\
+                           (s_deleted sb = false \/ removal_pending s1 sb tp)).
+  { destruct (FB _ Hin) as [Hold|(h & Hmsg & Hnb)].
+    - eapply I; eauto.
+    - destruct (IM _ _ _ _ Htp Hmsg) as (hp & Hh & Es & Et).
+      destruct (IH _ _ Hh) as (sb & Hs & Ets). rewrite Es in Hs.
+      exists sb. split; auto. split; [congruence|]. left.
+      unfold attach_blocked in Hnb. rewrite HG in Hnb. simpl in Hnb.
+      unfold sub_deleted in Hnb. now rewrite Hs in Hnb. }
+  destruct Old as (sb & Hs & Et & P).
+  destruct (@sub_fwd _ _ _ _ _ _ H Hs) as (sb' & Hs' & Et' & F1 & F2).
+  exists sb'. split; auto. split; [congruence|].
+  destruct P as [D|[(stash & W)|R]].
+  - destruct (F1 D) as [D'|W']; auto.
+    right; left. apply W'. now rewrite Et.
+  - destruct (F2 _ W) as [W'|[Hnone|(tp2 & Htp2 & Hin2)]].
+    + right; left. exact W'.
+    + rewrite Et in Hnone. congruence.
+    + rewrite Et in Htp2. assert (tp2 = tp1) by congruence. subst tp2.
+      right; right. exact Hin2.
+  - destruct (FC _ R) as [R'|Gone]; [|contradiction].
+    right; right. exact R'.
+Qed.
+
+Lemma inv_live_reachable : forall cfg st,
+  guard cfg = true -> reachable cfg st -> inv_live st /\ inv_exists st.
+Proof.
+  intros cfg st HG R. induction R as [|st l st' R IH H].
+  - split.
+    + intros ? ? ? Hn. unfold init in Hn; simpl in Hn. rewrite nth_nil in Hn. discriminate.
+    + intros ? ? Hn. unfold init in Hn; simpl in Hn. rewrite nth_nil in Hn. discriminate.
+  - destruct IH as [IL IE].
+    destruct (inv_c16_reachable R) as (I1 & I2 & I3 & I4 & I5 & I6). split.
+    + eapply inv_live_step; eauto.
+    + eapply inv_exists_step; eauto.
+Qed.
+
+(* at quiescence nothing is outstanding: mailboxes are empty and no actor is deleting *)
+Lemma quiescent_idle : forall cfg st,
+  1 <= K cfg -> drain cfg = true -> reachable cfg st -> quiescent cfg st -> ~ busy st.
+Proof.
+  intros cfg st HK HD R Q B.
+  destruct (C07_progress HK HD R B) as (l & st' & He & Hs).
+  rewrite (Q l He) in Hs. discriminate.
+Qed.
+
+(* C11: in the repaired code, at quiescence, the attachment list of a live topic contains
+   only subscriptions that are stored in the manager, are not deleted, and were created on
+   that topic.  (A deleted topic is excluded: its list is cleared when it is deleted, but an
+   Attach handled after that still inserts, and subscriptions deleted after their topic do
+   not send RemoveSubscription, so the list of a dead topic may hold dead entries; nothing
+   publishes to them through the manager since the topic is gone from it.) *)
+Theorem C11_attached_only_live : forall cfg st,
+  1 <= K cfg -> drain cfg = true -> guard cfg = true ->
+  reachable cfg st -> quiescent cfg st ->
+  forall t tp s, nth_error (topics st) t = Some tp -> t_alive tp = true -> In s (t_atts tp) ->
+    exists sb, nth_error (subs st) s = Some sb /\ s_exists sb = true /\
+               s_deleted sb = false /\ s_topic sb = t.
+Proof.
+  intros cfg st HK HD HG R Q t tp s Ht Ha Hin.
+  destruct (inv_live_reachable HG R) as [IL IE].
+  pose proof (quiescent_idle HK HD R Q) as NB.
+  destruct (IL _ _ _ Ht Ha Hin) as (sb & Hs & Et & P).
+  assert (D : s_deleted sb = false).
+  { destruct P as [D|[(stash & W)|Rm]]; auto; exfalso; apply NB.
+    - right; right; left. exists s, sb. split; auto. right. eauto.
+    - right; left. exists t, tp. split; auto. left. intros E. rewrite E in Rm. inversion Rm. }
+  exists sb. split; auto. split; [eapply IE; eauto|]. split; auto.
+Qed.
+
+(* C16 and C11 together: at quiescence of the repaired code, the attachment list of a live
+   topic is exactly the set of stored, undeleted subscriptions created on it *)
+Theorem C11_quiescent_exact : forall cfg st,
+  1 <= K cfg -> drain cfg = true -> guard cfg = true ->
+  reachable cfg st -> quiescent cfg st ->
+  forall t tp, nth_error (topics st) t = Some tp -> t_alive tp = true ->
+  forall s, In s (t_atts tp) <->
+            exists sb, nth_error (subs st) s = Some sb /\ s_exists sb = true /\
+                       s_deleted sb = false /\ s_topic sb = t.
+Proof.
+  intros cfg st HK HD HG R Q t tp Ht Ha s. split.
+  - intros Hin. eapply C11_attached_only_live; eauto.
+  - intros (sb & Hs & He & Hd & Et).
+    assert (Alive : topic_alive st (s_topic sb) = true)
+      by (unfold topic_alive; rewrite Et, Ht; exact Ha).
+    destruct (C16_attached HK HD R Q _ Hs He Hd Alive) as (tp0 & Ht0 & Hin).
+    rewrite Et in Ht0. congruence.
+Qed.
 (* ================================================================== *)
 (* Examples (vm_compute)                                                *)
 
@@ -1445,29 +1685,64 @@ Example dropped_create_ends_attached :
     option_map s_exists (nth_error (subs st) 0) = Some true.
 Proof. do 3 eexists. repeat (split; [vm_compute; reflexivity|]). vm_compute; reflexivity. Qed.
 
-(* Finding (model level): the converse of C16_attached does not hold.  A Delete that is
-   handled completely between step 1 of a Create and the helper's send leaves the exited
-   subscription attached for ever; every later Publish on the topic then fails (the post to
-   the closed mailbox fails).  In the code the window is: the spawned attach task has not
-   been polled yet while another request deletes the just-stored subscription. *)
-Definition stale_attach : list label :=
+
+(* C11 refuted for the code without the guard (drain = true, guard = false).  A Delete that
+   is handled completely between step 1 of a Create and the send of its attach task: the
+   topic handles RemoveSubscription (nothing to remove) and then AttachSubscription, so the
+   exited subscription stays in the attachment list of a live topic for ever, and every later
+   Publish on that topic fails (the post to the closed mailbox fails).  Replayed on the real
+   code by a multi-thread stress before the guard was added. *)
+Definition stale_prefix : list label :=
   [LArrive ANewTopic; LArrive (ACreate 0);
    LArrive (AReqS 0 KDelete); LCSend 1; LSDeq 0; LSSend 0; LTDeq 0; LSFinish 0;
-   LHSend 0; LTDeq 0;
-   LArrive (AReqT 0 KPublish); LCSend 2; LTDeq 0; LPost 0 0; LTFinish 0].
+   LHSend 0; LTDeq 0].
 
-Example stale_attachment_after_delete :
-  exists st, run (cfg_fixed 2) init stale_attach = Some st /\
+Definition later_publish : list label :=
+  [LArrive (AReqT 0 KPublish); LCSend 2; LTDeq 0; LPost 0 0; LTFinish 0].
+
+Theorem C11_refuted_without_guard :
+  exists st,
+    reachable (cfg_noguard 2) st /\ quiescent (cfg_noguard 2) st /\
+    (* a live topic's attachment list contains a subscription that no longer exists ... *)
+    (exists tp sb, nth_error (topics st) 0 = Some tp /\ t_alive tp = true /\ In 0 (t_atts tp) /\
+       nth_error (subs st) 0 = Some sb /\ s_exists sb = false /\ s_deleted sb = true /\
+       s_phase sb = SExited) /\
+    (* ... and a later Publish on that topic runs to quiescence and ends with an error *)
+    (exists st2, run (cfg_noguard 2) st later_publish = Some st2 /\
+       quiescent (cfg_noguard 2) st2 /\ nth_error (clients st2) 2 = Some (CDone false)).
+Proof.
+  eexists. split.
+  { eapply run_reachable with (ls := stale_prefix); [apply reach_init|].
+    vm_compute. reflexivity. }
+  split. { apply not_busy_quiescent. vm_compute. reflexivity. }
+  split.
+  { do 2 eexists. split; [vm_compute; reflexivity|]. split; [reflexivity|].
+    split; [left; reflexivity|]. split; [vm_compute; reflexivity|].
+    repeat split; reflexivity. }
+  eexists. split; [vm_compute; reflexivity|].
+  split. { apply not_busy_quiescent. vm_compute. reflexivity. }
+  vm_compute. reflexivity.
+Qed.
+
+(* the same schedule with the guard: the Attach of the deleted subscription is answered but
+   not performed, the attachment list ends empty and the later Publish succeeds *)
+Example stale_schedule_with_guard :
+  exists st0 st ls,
+    run (cfg_fixed 2) init (stale_prefix ++ [LArrive (AReqT 0 KPublish)]) = Some st0 /\
+    auto (cfg_fixed 2) 100 st0 = (st, ls) /\
+    ls = [LCSend 2; LTDeq 0; LTFinish 0] /\       (* no post: nothing is attached *)
     busyb st = false /\
     option_map s_phase (nth_error (subs st) 0) = Some SExited /\
-    option_map t_atts (nth_error (topics st) 0) = Some [0] /\
-    clients st = [CDone true; CDone true; CDone false].   (* the Publish fails *)
-Proof. eexists. repeat (split; [vm_compute; reflexivity|]). vm_compute; reflexivity. Qed.
+    option_map t_atts (nth_error (topics st) 0) = Some [] /\
+    clients st = [CDone true; CDone true; CDone true].
+Proof. do 3 eexists. repeat (split; [vm_compute; reflexivity|]). vm_compute; reflexivity. Qed.
 
 (* ================================================================== *)
 Print Assumptions C07_progress.
+Print Assumptions measure_step.
 Print Assumptions C07_bounded.
 Print Assumptions C07_terminates.
+Print Assumptions quiescent_iff_idle.
 Print Assumptions C07_refuted_without_drain.
 Print Assumptions C07_refuted_without_drain_16.
 Print Assumptions C16_attached.
@@ -1476,5 +1751,9 @@ Print Assumptions C16_effect_sub.
 Print Assumptions C16_effect_topic.
 Print Assumptions C16_drop_local.
 Print Assumptions C16_effect_independent.
+Print Assumptions C11_attached_only_live.
+Print Assumptions C11_quiescent_exact.
+Print Assumptions C11_refuted_without_guard.
+Print Assumptions stale_schedule_with_guard.
 Print Assumptions dropped_create_ends_attached.
 Print Assumptions burst_runs_to_quiescence_K16.
